@@ -218,18 +218,24 @@ def golden_cases(res, base, r):
     res.count('golden_fault_cases')
     # (3) match string absent from the golden output: status 1, nothing run
     rules = realrun.simple_spec('has:a')
-    for opt in ('--match-out', '--match-err'):
-        for entry in ('bin', 'module'):
-            run = realrun.run_ddsmt(os.path.join(base, f'g3{opt}{entry}'),
-                                    text, rules, entry=entry,
-                                    opts=[opt, 'NOT-THERE', '--timeout', '5'])
+    for opt, entry, itext in [(o, e, t) for o in ('--match-out',
+                                                  '--match-err')
+                              for e in ('bin', 'module')
+                              for t in (text, '', ' \n\n')
+                              if t == text or e == 'bin']:
+        if True:
+            run = realrun.run_ddsmt(
+                os.path.join(base, f'g3{opt}{entry}{len(itext)}'),
+                itext, rules, entry=entry,
+                opts=[opt, 'NOT-THERE', '--timeout', '5'])
             res.count('evaluations')
             res.count('match_string_cases')
             if run.rc != 1 or len(run.cmdlog) != 1 or \
                     run.out_bytes is not None:
                 res.violation(
                     'golden-match-string-not-enforced',
-                    f'{opt} absent from the golden output: exit status '
+                    f'{opt} absent from the golden output (input of '
+                    f'{len(itext)} bytes): exit status '
                     f'{run.rc}, {len(run.cmdlog) - 1} candidates tested', {
                         'opt': opt,
                         'entry': entry,
